@@ -53,6 +53,108 @@ def _factors(e):
     return [e]
 
 
+def loop_weight(cf: ast.FunctionDef, lp: ast.For, ms_name: str):
+    """place value given to the high digit read in iteration i of `lp`, by induction-variable analysis of the loop:
+    the accumulated product <ms>[letter] * f1 * f2 .. with every other factor a constant, a power 5 ** e (pow(5, e)) of a counter
+    e = a + s*i (an `enumerate` index, or a local set before the loop and stepped once per iteration), or a running product
+    w = c * r^i (a local set before the loop and multiplied once per iteration).  -> (C, A, S) meaning C * 5^(A + S*i), or None"""
+    top = list(lp.body)
+
+    def const_int(e):
+        if isinstance(e, ast.Constant) and isinstance(e.value, int) and not isinstance(e.value, bool):
+            return e.value
+        if isinstance(e, ast.UnaryOp) and isinstance(e.op, ast.USub) and const_int(e.operand) is not None:
+            return -const_int(e.operand)
+        return None
+
+    acc = None
+    for i, st in enumerate(top):
+        val = None
+        if isinstance(st, ast.AugAssign) and isinstance(st.op, ast.Add) and isinstance(st.target, ast.Name):
+            val = st.value
+        elif isinstance(st, ast.Assign) and len(st.targets) == 1 and isinstance(st.targets[0], ast.Name) and isinstance(st.value, ast.BinOp) \
+                and isinstance(st.value.op, ast.Add) and isinstance(st.value.left, ast.Name) and st.value.left.id == st.targets[0].id:
+            val = st.value.right
+        if val is not None and any(isinstance(f, ast.Subscript) and isinstance(f.value, ast.Name) and f.value.id == ms_name for f in _factors(val)):
+            if acc is not None:
+                return None
+            acc = (i, val)
+    if acc is None:
+        return None
+    use_at, val = acc
+
+    def before_loop(name):
+        defs = [n for n in ast.walk(cf) if isinstance(n, (ast.Assign, ast.AnnAssign)) and n.value is not None
+                and isinstance(n.targets[0] if isinstance(n, ast.Assign) else n.target, ast.Name)
+                and (n.targets[0] if isinstance(n, ast.Assign) else n.target).id == name and n.lineno < lp.lineno]
+        stores_in = [n for n in ast.walk(lp) if isinstance(n, ast.Name) and n.id == name and isinstance(n.ctx, ast.Store)]
+        return (const_int(defs[-1].value) if defs else None), stores_in
+
+    def counter(name):
+        """(a, s): the value of the counter when it is used in iteration i is a + s*i"""
+        it = lp.iter
+        if isinstance(it, ast.Call) and isinstance(it.func, ast.Name) and it.func.id == 'enumerate' and isinstance(lp.target, ast.Tuple) \
+                and isinstance(lp.target.elts[0], ast.Name) and lp.target.elts[0].id == name:
+            st_e = it.args[1] if len(it.args) > 1 else next((k.value for k in it.keywords if k.arg == 'start'), None)
+            a = 0 if st_e is None else const_int(st_e)
+            return None if a is None or any(isinstance(n, ast.Name) and n.id == name and isinstance(n.ctx, ast.Store) for b in lp.body for n in ast.walk(b)) \
+                else (a, 1)
+        init, stores = before_loop(name)
+        steps = [(j, st) for j, st in enumerate(top) if isinstance(st, ast.AugAssign) and isinstance(st.target, ast.Name) and st.target.id == name
+                 and isinstance(st.op, (ast.Add, ast.Sub)) and const_int(st.value) is not None]
+        if init is None or len(steps) != 1 or len(stores) != 1:
+            return None
+        j, st = steps[0]
+        step = const_int(st.value) * (1 if isinstance(st.op, ast.Add) else -1)
+        return (init + (step if j < use_at else 0), step)
+
+    def running(name):
+        """(c, r): the value of the running product when it is used in iteration i is c * r^i"""
+        init, stores = before_loop(name)
+        steps = [(j, st) for j, st in enumerate(top) if isinstance(st, ast.AugAssign) and isinstance(st.target, ast.Name) and st.target.id == name
+                 and isinstance(st.op, ast.Mult) and const_int(st.value) is not None]
+        if init is None or len(steps) != 1 or len(stores) != 1:
+            return None
+        j, st = steps[0]
+        r = const_int(st.value)
+        return (init * (r if j < use_at else 1), r)
+
+    C, A, S = 1, 0, 0
+    for f in _factors(val):
+        if isinstance(f, ast.Subscript) and isinstance(f.value, ast.Name) and f.value.id == ms_name:
+            continue
+        k = const_int(f)
+        if k is not None:
+            C *= k
+            continue
+        base = expo = None
+        if isinstance(f, ast.Call) and ast.unparse(f.func) == 'pow' and len(f.args) == 2 and not f.keywords:
+            base, expo = f.args
+        elif isinstance(f, ast.BinOp) and isinstance(f.op, ast.Pow):
+            base, expo = f.left, f.right
+        if base is not None:
+            if const_int(base) != 5:
+                return None
+            if const_int(expo) is not None:
+                A += const_int(expo)
+                continue
+            if isinstance(expo, ast.Name) and counter(expo.id) is not None:
+                a, s_ = counter(expo.id)
+                A += a
+                S += s_
+                continue
+            return None
+        if isinstance(f, ast.Name) and running(f.id) is not None:
+            c, r = running(f.id)
+            if r != 5:
+                return None
+            C *= c
+            S += 1
+            continue
+        return None
+    return C, A, S
+
+
 def digit_tables(ctx, py: PyRepo, fn: ast.FunctionDef):
     want = {'lsdigit': [(chr(ord('A') + i), i + 1) for i in range(20)],       # A..T -> 1..20 (Metamath book, appendix B)
             'msdigit': [(chr(ord('U') + i), i + 1) for i in range(5)]}        # U..Y -> 1..5
@@ -76,24 +178,22 @@ def digit_tables(ctx, py: PyRepo, fn: ast.FunctionDef):
     conv = find_decoder(py, fn, set(names.values()))
     ctx.require(len(conv) == 1, 'anchor vanished: the function that decodes one word with both digit tables (convert_to_number)')
     ok = False
-    for n in ast.walk(conv[0]):
-        if isinstance(n, ast.BinOp) and isinstance(n.op, ast.Mult):
-            fs = _factors(n)
-            has_ms = [f for f in fs if isinstance(f, ast.Subscript) and isinstance(f.value, ast.Name) and f.value.id == names['most-significant']]
-            if has_ms and len(fs) == 2 and zip_weight_table(py, fn, conv[0]) is not None:
-                ok = True                   # ms[letter] * weight with the weight taken from a table: the table is checked under digit-order
-                continue
-            if not has_ms or len(fs) != 3:
-                continue
-            rest = [f for f in fs if f not in has_ms]
-            c20 = [f for f in rest if isinstance(f, ast.Constant) and f.value == 20]
-            p5 = [f for f in rest if (isinstance(f, ast.Call) and ast.unparse(f.func) == 'pow' and len(f.args) == 2 and not f.keywords
-                                      and isinstance(f.args[0], ast.Constant) and f.args[0].value == 5 and isinstance(f.args[1], ast.Name))
-                  or (isinstance(f, ast.BinOp) and isinstance(f.op, ast.Pow) and isinstance(f.left, ast.Constant) and f.left.value == 5
-                      and isinstance(f.right, ast.Name))]
-            if len(has_ms) == 1 and len(c20) == 1 and len(p5) == 1:
-                ok = True
-    ctx.ob('digit-table', 'weights', ok, 'the word decoder does not weight the high digits by 20 * 5^i', py.where(MODULE, conv[0]))
+    why_w = ''
+    if zip_weight_table(py, fn, conv[0]) is not None:
+        # ms[letter] * weight with the weight taken from a table: the table itself is checked under digit-order
+        ok = any(isinstance(n, ast.BinOp) and isinstance(n.op, ast.Mult) and len(_factors(n)) == 2
+                 and any(isinstance(f, ast.Subscript) and isinstance(f.value, ast.Name) and f.value.id == names['most-significant'] for f in _factors(n))
+                 for n in ast.walk(conv[0]))
+    else:
+        loops_ = [n for n in ast.walk(conv[0]) if isinstance(n, ast.For)]
+        if len(loops_) == 1:
+            lw = loop_weight(conv[0], loops_[0], names['most-significant'])
+            if lw is not None:
+                C, A, S = lw
+                # C * 5^(A + S*i) == 20 * 5^i for every i
+                ok = S == 1 and A >= 0 and C * 5 ** A == 20
+                why_w = f' (iteration i gives the digit the weight {C} * 5^({A} + {S}*i))'
+    ctx.ob('digit-table', 'weights', ok, 'the word decoder does not weight the high digits by 20 * 5^i' + why_w, py.where(MODULE, conv[0]))
     return names, conv[0]
 
 
@@ -122,6 +222,16 @@ def numbering_sites(py: PyRepo, fn: ast.FunctionDef, ci):
     return out
 
 
+def inner_fn(sc, node):
+    """the innermost function of `sc` that contains `node`"""
+    inner = sc
+    for g in ast.walk(sc):
+        if isinstance(g, ast.FunctionDef) and g is not sc and any(x is node for x in ast.walk(g)):
+            if inner is sc or any(x is g for x in ast.walk(inner)):
+                inner = g
+    return inner
+
+
 def numbering(ctx, py: PyRepo, fn: ast.FunctionDef, ci):
     oa = OrderAnalysis(py)
     sites = numbering_sites(py, fn, ci)
@@ -138,13 +248,37 @@ def numbering(ctx, py: PyRepo, fn: ast.FunctionDef, ci):
             st_e = it.args[1] if len(it.args) > 1 else next((k.value for k in it.keywords if k.arg == 'start'), None)
             enum_start = st_e.value if isinstance(st_e, ast.Constant) else (0 if st_e is None else None)
             it = it.args[0]
-        src = order_from_set(sc, oa, env, ci, it)
+        # the sequence may be computed by a method of the converter (`for v in self._ordered(statement)`): what that method returns
+        hops = 0
+        sc_it = sc
+        while isinstance(it, ast.Call) and isinstance(it.func, ast.Attribute) and isinstance(it.func.value, ast.Name) and it.func.value.id == 'self' \
+                and it.func.attr in ci.methods and hops < 2:
+            from .c16 import returned_exprs
+            rets = returned_exprs(ci.methods[it.func.attr])
+            if len(rets) != 1:
+                break
+            sc_it = ci.methods[it.func.attr]
+            env = oa.local_env(sc_it)
+            it = rets[0][1]
+            hops += 1
+        src = order_from_set(sc_it, oa, env, ci, it)
         if src is not None:
             ctx.ob('hypothesis-order', 'numbering-loop', False,
                    f'the mandatory hypotheses are numbered in the iteration order of `{src[0]}`, a set of {src[1]}: with two or more '
                    f'variables the numbering depends on the hash seed instead of the database order', where)
         else:
-            ok, why = database_ordered(sc, it)
+            # the innermost function around the loop: its single-assignment locals are read through
+            from .c16 import inline_locals
+            inner = sc
+            for g in ast.walk(sc):
+                if isinstance(g, ast.FunctionDef) and g is not sc and any(x is loop for x in ast.walk(g)):
+                    if inner is sc or any(x is g for x in ast.walk(inner)):
+                        inner = g
+            ok, why = database_ordered(sc_it, it)
+            if ok is None and sc_it is sc:
+                ok, why = database_ordered(inner, inline_locals(inner.body, it))
+            elif ok is None:
+                ok, why = database_ordered(sc_it, inline_locals(sc_it.body, it))
             if ok is None:
                 raise AnalysisError(f'_import_proof: cannot decide whether `{ast.unparse(it)}` is in database order ({why})')
             ctx.ob('hypothesis-order', 'numbering-loop', ok, why, where, facts={'source': ast.unparse(it)})
@@ -162,6 +296,22 @@ def numbering(ctx, py: PyRepo, fn: ast.FunctionDef, ci):
             incs = [a for a in ast.walk(loop) if isinstance(a, ast.AugAssign) and isinstance(a.target, ast.Name) and a.target.id == idx.id]
             ok_idx = len(inits) == 1 and isinstance(inits[0].value, ast.Constant) and inits[0].value.value == 1 and len(incs) == 1 \
                 and isinstance(incs[0].op, ast.Add) and isinstance(incs[0].value, ast.Constant) and incs[0].value.value == 1
+        elif kind == 'loop' and isinstance(idx, ast.BinOp) and isinstance(idx.op, ast.Add) and isinstance(st.targets[0].value, ast.Name):
+            # table[len(table) + 1] = ..: the number of entries so far plus one - 1, 2, 3, .. when the table is empty before the loop and
+            # every iteration stores exactly this one new key
+            T = st.targets[0].value.id
+            parts = {ast.unparse(idx.left), ast.unparse(idx.right)}
+            stores = [a for a in ast.walk(loop) if isinstance(a, (ast.Assign, ast.AugAssign, ast.Delete)) and any(
+                isinstance(x, ast.Subscript) and isinstance(x.value, ast.Name) and x.value.id == T and isinstance(x.ctx, (ast.Store, ast.Del))
+                for x in ast.walk(a))]
+            inits = sorted((a for g in [inner_fn(sc, loop)] for a in ast.walk(g) if isinstance(a, (ast.Assign, ast.AnnAssign)) and a.value is not None
+                            and isinstance(a.targets[0] if isinstance(a, ast.Assign) else a.target, ast.Name)
+                            and (a.targets[0] if isinstance(a, ast.Assign) else a.target).id == T and a.lineno < loop.lineno), key=lambda a: a.lineno)
+            empty = bool(inits) and ast.unparse(inits[-1].value) in ('{}', 'dict()')
+            touched_between = bool(inits) and any(
+                isinstance(x, ast.Name) and x.id == T and inits[-1].lineno < x.lineno < loop.lineno for x in ast.walk(inner_fn(sc, loop)))
+            ok_idx = parts == {f'len({T})', '1'} and len(stores) == 1 and stores[0] is st and empty and not touched_between \
+                and st in loop.body
         else:
             ok_idx = False
         ctx.ob('hypothesis-order', 'numbering-from-1', ok_idx, 'hypothesis numbers must be 1, 2, 3, ... in loop order', where)
@@ -391,18 +541,9 @@ def digit_order(ctx, py: PyRepo, fn: ast.FunctionDef, names, cf):
     seq = it
     if isinstance(it, ast.Call) and isinstance(it.func, ast.Name) and it.func.id == 'enumerate' and it.args:
         seq = it.args[0]
-        exp_dir = 'asc'
-    else:
-        incs = [n for n in ast.walk(lp) if isinstance(n, ast.AugAssign) and isinstance(n.op, ast.Add)
-                and isinstance(n.value, ast.Constant) and n.value.value == 1 and isinstance(n.target, ast.Name)]
-        for inc in incs:
-            inits = [n for n in ast.walk(cf) if isinstance(n, ast.Assign) and isinstance(n.targets[0], ast.Name)
-                     and n.targets[0].id == inc.target.id and isinstance(n.value, ast.Constant) and n.value.value == 0]
-            used = any(isinstance(n, ast.Call) and ast.unparse(n.func) == 'pow' and len(n.args) == 2 and ast.unparse(n.args[1]) == inc.target.id
-                       for n in ast.walk(lp)) or any(isinstance(n, ast.BinOp) and isinstance(n.op, ast.Pow) and ast.unparse(n.right) == inc.target.id
-                                                      for n in ast.walk(lp))
-            if inits and used:
-                exp_dir = 'asc'
+    lw = loop_weight(cf, lp, names['most-significant'])
+    if lw is not None and lw[2] != 0:
+        exp_dir = 'asc' if lw[2] > 0 else 'desc'
     use_line[0] = lp.lineno
     d = direction(seq)
     use_line[0] = 10 ** 9
@@ -435,6 +576,8 @@ def database_ordered(fn: ast.FunctionDef, it):
 
     if leading_ordered(it):
         return True, ''
+    if isinstance(it, ast.BinOp) and isinstance(it.op, ast.Add):
+        return database_ordered(fn, it.left)          # a concatenation starts with its left operand
     if isinstance(it, ast.Call) and isinstance(it.func, ast.Name) and it.func.id == 'sorted':
         return False, ('the hypotheses are numbered in sorted (alphabetical) order; the Metamath specification numbers mandatory '
                        'hypotheses in database order')
